@@ -314,7 +314,21 @@ Definition evaluate_op (par : bool) (d : delegate) (st : dstate) (pop : list ind
   (evaluate_fresh par (s_objective st) d (s_timer st) pop,
    {| s_objective := s_objective st; s_timer := s_timer st; s_cache := [] |}).   (* _reset_eval_cache *)
 
-Inductive step := Dispatch (o : objective) (t : option (nat -> bool)) | Evaluate (pop : list ind).
+(* the delegate evaluator object can be switched on / off / exchanged between evaluations
+   (is_enabled is read at every evaluation); an evaluation can be ABORTED by an exception that
+   escapes it (a raising callback or plain objective function, KeyboardInterrupt): nothing is
+   returned, no individual is changed, and the delegate cache of that run is left behind because
+   the reset after an evaluation is not reached.  The next evaluation starts with
+   _reset_eval_cache() inside _remote_compute_cache, so the left-over cache is never read. *)
+Inductive step :=
+| Dispatch (o : objective) (t : option (nat -> bool))
+| Evaluate (pop : list ind)
+| SetDelegate (d : delegate)
+| Aborted (pop : list ind).
+
+Definition aborted_op (par : bool) (d : delegate) (st : dstate) (pop : list ind) : dstate :=
+  {| s_objective := s_objective st; s_timer := s_timer st;
+     s_cache := remote_compute_cache d (if par then rev pop else pop) |}.
 
 (* the answers of the evaluations of a session, in order *)
 Fixpoint run_session (par : bool) (d : delegate) (st : dstate) (steps : list step)
@@ -323,6 +337,8 @@ Fixpoint run_session (par : bool) (d : delegate) (st : dstate) (steps : list ste
   | [] => []
   | Dispatch o t :: rest => run_session par d (dispatch_op st o t) rest
   | Evaluate pop :: rest => let '(r, st') := evaluate_op par d st pop in r :: run_session par d st' rest
+  | SetDelegate d' :: rest => run_session par d' st rest
+  | Aborted pop :: rest => run_session par d (aborted_op par d st pop) rest
   end.
 
 (* ------------------------------------------------------------------------------------- *)
